@@ -99,7 +99,7 @@ pub fn stale_slot_script(rng: &mut Rng) -> std::collections::VecDeque<String> {
 /// (home = E's group) through the vacant-entry path picks the EMPTY bucket, must reserve, the in-place
 /// rehash takes the E's home — X's first probe group is now free — and the slot picked BEFORE the rehash is
 /// behind a group with EMPTY bytes. X and the E's are then looked up.
-pub fn displaced_group_script(rng: &mut Rng) -> std::collections::VecDeque<String> {
+pub fn displaced_group_script(rng: &mut Rng, unlawful: bool) -> std::collections::VecDeque<String> {
     let w = hashbrown::verif::GROUP_WIDTH;
     let n = 4 * w;
     let mask = n - 1;
@@ -126,6 +126,11 @@ pub fn displaced_group_script(rng: &mut Rng) -> std::collections::VecDeque<Strin
         out.push_back(format!("a remove {}", k));
     }
     let x = key(w, 3);
+    if unlawful {
+        // from here on the hasher answers pseudo-randomly per call: the in-place rehash scatters the survivors,
+        // possibly into the very bucket the insertion picked before reserving (C05)
+        out.push_back(format!("env hash=mix:{}", rng.below(1 << 30)));
+    }
     out.push_back(format!("EINS {}", x));
     out.push_back(format!("a get {}", x));
     for j in 0..w {
